@@ -120,6 +120,35 @@ def wrap_x(ctx, crate):
     ctx.report("wrap-x", fn + ":x+8-iff-negative", not bad, "x + 8 for x < 0, x otherwise, at 8 points" if not bad else "ensures_x_is_positive(%r) = %r, expected %r" % bad[0], at=b.span, kind="N")
 
 
+def collignon_table(ctx, crate):
+    """N: `proj_collignon` computes sigma = sqrt(6) cos(lat / 2 + pi / 4) and returns (x sigma, 2 - sigma),
+    read at 9 latitudes of the cap down to 1e-15 rad from the pole; `proj_cea` returns (x, 1.5 sin lat).
+    A threshold that snaps positions next to a pole onto it moves them by more than the 1e-14 rad the
+    round trip is allowed."""
+    import math
+    from rules.common import feval, param
+    clause = "projection-formulae"
+    for fn, f_ in (("proj_collignon", lambda x, b_: (x * (math.sqrt(6.0) * math.cos(0.5 * b_ + math.pi / 4)), 2.0 - math.sqrt(6.0) * math.cos(0.5 * b_ + math.pi / 4))),
+                   ("proj_cea", lambda x, b_: (x, 1.5 * math.sin(b_)))):
+        b = ctx.anchor(crate, fn, clause)
+        if b is None: continue
+        e = Engine(crate); r = e.run(fn); ctx.functions |= e.visited_fns
+        q = b.param_names()[0]
+        places = [('fld', ('deref', ('p', q)), 0), ('fld', ('deref', ('p', q)), 1)]
+        if not r.returns:
+            ctx.undecided(clause, fn + ":formula", "no value", at=b.span); continue
+        outs = [r.state.heap.get(pl, pl) for pl in places]
+        lats = [0.74, 1.0, 1.4, math.pi / 2 - 1e-6, math.pi / 2 - 1e-10, math.pi / 2 - 1e-12, math.pi / 2 - 3e-14, math.pi / 2 - 4e-15, math.pi / 2] if fn == "proj_collignon" else [0.0, 0.2, 0.5, 0.7297]
+        bad = []
+        for b_ in lats:
+            for x0 in (-1.0, 0.4, 1.0):
+                env = {places[0]: x0, places[1]: b_}
+                got = [feval(o, env, e) for o in outs]
+                want = f_(x0, b_)
+                if any(g is None for g in got) or abs(got[0] - want[0]) > 2e-15 or abs(got[1] - want[1]) > 2e-15: bad.append(((x0, b_), got, want))
+        ctx.report(clause, fn + ":formula", not bad, "%d latitudes x 3 offsets" % len(lats) if not bad else "%s(x, lat) at %s gives %s, the projection is %s" % (fn, bad[0][0], bad[0][1], bad[0][2]), at=b.span, kind="N")
+
+
 def pole_guard(ctx, crate):
     """N: in `deproj_collignon` the longitude offset is divided by t = sqrt(3(1 - |z|)) unless t is
     below a threshold.  Where the division is skipped the returned longitude is the centre of the
@@ -197,6 +226,7 @@ def run(ctx):
     pole_guard(ctx, crate)
     switch_continuity(ctx, crate)
     wrap_x(ctx, crate)
+    collignon_table(ctx, crate)
     ctx.not_decided("the projection formulae, inverse property, 1e-14 accuracy (float numerics); base_cell_from_proj_coo on points exactly on a diagonal / facet seam (float ties)")
     from rules import cancellation
     cancellation.check(ctx, ctx.crate("rel"), ['proj', 'unproj', 'base_cell_from_proj_coo'], floor=8)
